@@ -1203,7 +1203,20 @@ def check_modules(res, case):
             own_class = _OWN_CLASSES.get(case["env"])
             if own_class is None:
                 # (one class object per process: the factory keeps registered classes for the life of the process)
-                own_class = _OWN_CLASSES[case["env"]] = type("Own%s" % base_class.__name__, (base_class,), {})
+                body = {}
+                if hasattr(base_class, "regex") and isinstance(getattr(base_class, "regex"), property):
+                    # a regex matcher of one's own may override the public `regex` property (here: same flags, own cache)
+                    import re as _re
+
+                    def _get_regex(self):
+                        if getattr(self, "_own_regex", None) is None:
+                            self._own_regex = _re.compile(self.pattern, _re.UNICODE)
+                        return self._own_regex
+
+                    def _set_regex(self, value):
+                        self._own_regex = value
+                    body["regex"] = property(_get_regex, _set_regex)
+                own_class = _OWN_CLASSES[case["env"]] = type("Own%s" % base_class.__name__, (base_class,), body)
             matchers.register_step_matcher_class("own_" + case["env"], own_class)
             matchers.use_step_matcher("own_" + case["env"])
             res.label("modules:own-matcher-class-as-default")
